@@ -367,11 +367,15 @@ def setrange_corr(ctx, model, _set_range, _BoundedFile, falcon):
                 real = [1, seek, length, list(cr)]
                 chunk = 1 + (size + (rr[0] if rr else 0)) % 4
                 got = b''
-                while True:
+                for _step in range(64):     # step budget: a 0..9-byte slice needs at most 10 reads
                     c = stream.read(chunk)
                     if not c:
                         break
                     got += c
+                else:
+                    ctx.violation('c16-hang', {'size': size, 'range': rr and list(rr), 'chunk': chunk,
+                                               'what': '_BoundedFile.read(n) never returned an empty result'},
+                                  key='c16-hang')
                 got += stream.read()
             body_ok = got == data[:size][seek:seek + length] and len(got) == length
         except falcon.HTTPRangeNotSatisfiable as e:
